@@ -3,6 +3,7 @@
 package core
 
 import (
+	"context"
 	"crypto/sha1"
 	"encoding/hex"
 	"encoding/json"
@@ -12,6 +13,7 @@ import (
 	"os"
 	"os/exec"
 	"path/filepath"
+	"regexp"
 	"sort"
 	"strconv"
 	"strings"
@@ -548,4 +550,39 @@ func (d *Distinct) N() int {
 	d.mu.Lock()
 	defer d.mu.Unlock()
 	return len(d.m)
+}
+
+var reProved = regexp.MustCompile(`All (\d+) obligations? proved`)
+
+// RunTLAPM proves the theorems of a proof module with tlapm in a private copy of the specs and
+// returns the number of obligations proved.  A proof that does not go through says nothing about
+// the code: it is exit 2, never a violation.
+func RunTLAPM(env *Env, module string, timeout time.Duration) int {
+	dir := env.Sub("tlapm-" + module)
+	specs, _ := filepath.Glob(filepath.Join(env.VerifDir, "specs", "*.tla"))
+	for _, s := range specs {
+		b, err := ioutil.ReadFile(s)
+		if err != nil {
+			continue
+		}
+		_ = ioutil.WriteFile(filepath.Join(dir, filepath.Base(s)), b, 0o644)
+	}
+	ctx, cancel := context.WithTimeout(context.Background(), timeout)
+	defer cancel()
+	cmd := exec.CommandContext(ctx, "tlapm", "--threads", "8", "--cleanfp", module+".tla")
+	cmd.Dir = dir
+	out, err := cmd.CombinedOutput()
+	m := reProved.FindSubmatch(out)
+	if err != nil || m == nil {
+		s := string(out)
+		if len(s) > 1500 {
+			s = s[len(s)-1500:]
+		}
+		Broken("tlapm %s: %v\n%s", module, err, s)
+	}
+	n, _ := strconv.Atoi(string(m[1]))
+	tlcMu.Lock()
+	tlcTotals.cmds = append(tlcTotals.cmds, "tlapm --threads 8 --cleanfp "+module+".tla")
+	tlcMu.Unlock()
+	return n
 }
